@@ -359,6 +359,7 @@ func runRFaultCase(c *Case, env *Env) *Result {
 							// if the segment it returned is complete and right - checkable
 							// once the storage is healthy again, i.e. for the one-shot fault
 							if count > 0 {
+								ra.Budget = 0 // the budget was Load's; reading the whole segment takes more
 								if f := checkModel("C19", ws, seg, label+": Load returned a segment and no error, and that segment", false); f != nil {
 									f.Oracle, f.Kind, f.Site = "read-fault", "silent-success", "Load"
 									res.Fail = f
